@@ -383,9 +383,16 @@ def count(case, res):
         res.count("perturbation", case["how"])
 
 
-def make_case(pair, variant):
+def make_case(pair, variant, derived=0):
+    """derived: 1 / 2 / 3 = source / target / both are the rectilinear grids obtained by `to_rectilinear()` from the
+    uniform or ESRI grid of the spec"""
     via, t, masked = variant
-    return {"type": "pair", "src": pair[0], "dst": pair[1], "via": via, "time": t, "masked": masked}
+    src, dst = pair
+    if derived & 1 and src["kind"] in ("uniform", "esri"):
+        src = dict(src, to_rect=True)
+    if derived & 2 and dst["kind"] in ("uniform", "esri"):
+        dst = dict(dst, to_rect=True)
+    return {"type": "pair", "src": src, "dst": dst, "via": via, "time": t, "masked": masked}
 
 
 def corpus():
@@ -418,7 +425,8 @@ def check_cases(cases, res):
 def run(ctx, res):
     res.rule = ("all ordered pairs of layouts (order x axes_reversed x direction^d) of one geometry for geometries "
                 f"{GEOMS} x {{uniform, rectilinear}} x {{cells, points}}, ESRI rasters against every layout of the "
-                "same uniform geometry (both directions); each pair in 8 variants: direct transform without time axis / "
+                "same uniform geometry (both directions), either side optionally replaced by the grid derived from it with "
+                "to_rectilinear(); each pair in 8 variants: direct transform without time axis / "
                 "with a time axis of length 2, plain / masked array; through a real Output>>Input link (time axis "
                 "added by prepare) plain / masked payload / explicit producer mask / explicit masks at both ends "
                 "(thorough: every pair x variant; quick: corpus + seeded sample); random pairs of perturbed geometries "
@@ -432,6 +440,13 @@ def run(ctx, res):
     pairs = list(all_pairs())
     if ctx.tier == "thorough":
         cases = [make_case(p, v) for p in pairs for v in VARIANTS]
+        # grids derived by to_rectilinear(): every uniform / ESRI pair once more, cycling through the variants and
+        # through which side is derived
+        k = 0
+        for p in pairs:
+            if p[0]["kind"] != "rect" or p[1]["kind"] != "rect":
+                cases.append(make_case(p, VARIANTS[k % len(VARIANTS)], 1 + (k // len(VARIANTS)) % 3))
+                k += 1
         res.exhaustive = True
     else:
         # stratified by dimension / ESRI so that the (many) 3-D pairs do not crowd out the rest
@@ -441,7 +456,8 @@ def run(ctx, res):
             groups.setdefault(key, []).append(p)
         cases = []
         for key in sorted(groups, key=str):
-            cases += [make_case(ctx.rng.choice(groups[key]), ctx.rng.choice(VARIANTS)) for _ in range(1200)]
+            cases += [make_case(ctx.rng.choice(groups[key]), ctx.rng.choice(VARIANTS),
+                                ctx.rng.choice([0, 0, 0, 1, 2, 3])) for _ in range(1200)]
     compat = [gen_compat_case(ctx.rng) for _ in range(ctx.n(1500, 6000))]
     check_cases(corpus() + cases + compat, res)
 
